@@ -462,12 +462,13 @@ class Out:
 
 class ExcRec:
     """an exception in flight: the abstract exception object, where it originated, the call chain from the current function"""
-    __slots__ = ('atom', 'origin', 'chain', 'converted_from', 'implicit', 'uncertain')
+    __slots__ = ('atom', 'origin', 'chain', 'converted_from', 'implicit', 'uncertain', 'pfacts')
 
     def __init__(self, atom, origin, chain, converted_from=None, implicit=False, uncertain=False):
         self.atom, self.origin, self.chain, self.converted_from = atom, origin, chain, converted_from
         self.implicit = implicit      # stands for whatever the try body raises implicitly for this handler: never leaves it
         self.uncertain = uncertain    # raised only because a value is unknown to the analysis (not positively user controlled)
+        self.pfacts = None            # path facts at the point of raising (what the failing call itself would have established does not hold)
 
     @property
     def cls(self):
@@ -1001,7 +1002,11 @@ class Interp:
         """exceptions raised while evaluating the expressions of the current statement become outcomes"""
         if fr.pending:
             for rec in fr.pending:
-                out.exc.append((store.copy(), rec))
+                s_ = store.copy()
+                if rec.pfacts is not None:
+                    s_.facts = rec.pfacts & s_.facts
+                    rec.pfacts = None
+                out.exc.append((s_, rec))
             fr.pending = []
 
     def exec_stmt(self, fr, st, store):
@@ -1377,7 +1382,12 @@ class Interp:
         if st.exc is None:
             if not fr.handling:
                 raise self.err(st, 'bare raise outside a handler')
-            for rec in fr.handling[-1]:
+            recs = fr.handling[-1]
+            h_ = store.vars.get('$handling')
+            if h_:
+                # narrowed by isinstance tests on the way here: only the exceptions that can still be the one being handled
+                recs = [r for a in h_ if a[0] == 'caught' for r in self.recs_of(a)]
+            for rec in recs:
                 if not rec.implicit:
                     out.exc.append((store.copy(), rec))
             return
@@ -1394,7 +1404,7 @@ class Interp:
             elif a[0] == 'obj':
                 self.raise_atom(fr, a, st, store, out)
             elif a[0] == 'caught':
-                for rec in self.caught_tbl.get(a[1], []):
+                for rec in self.recs_of(a):
                     if not rec.implicit:
                         out.exc.append((store.copy(), rec))
             elif a == TOP:
@@ -1688,8 +1698,9 @@ class Interp:
                     seen.add(r.key())
                     recs.append(r)
             fr.store = s
+            self.caught_tbl[id(h)] = recs
+            s.vars['$handling'] = av(('caught', id(h)))
             if h.name:
-                self.caught_tbl[id(h)] = recs
                 self.bind(fr, h.name, av(('caught', id(h))))
             fr.handling.append(recs)
             try:
@@ -1716,6 +1727,13 @@ class Interp:
                 fin.absorb(of)
             res = fin
         out.absorb(res, True)
+
+    def recs_of(self, a):
+        """the exceptions a handler variable may hold (all the handler caught, or the part an isinstance test left)"""
+        recs = self.caught_tbl.get(a[1], [])
+        if len(a) > 2:
+            recs = [r for r in recs if r.key() in a[2]]
+        return recs
 
     def handler_type_names(self, fr, h):
         if h.type is None:
@@ -2537,7 +2555,7 @@ class Interp:
             return BOT
         if k == 'caught':
             out = BOT
-            for rec in self.caught_tbl.get(a[1], []):
+            for rec in self.recs_of(a):
                 v = self.load_attr_atom(fr, rec.atom, attr, node)
                 # the line of the error caught by this handler is that very line, however little is known about it
                 out = join(out, map_tags(v, lambda t, h=a[1]: ('caught', h)))
@@ -2689,6 +2707,14 @@ class Interp:
                 idx = ('idx', a[1], origin)
                 if es:
                     out = join(out, av(('seq', 'tuple', (av(idx), es))))
+            elif k == 'zip' and len(a[1]) == 2 and any(len(c_) == 1 and next(iter(c_))[0] == 'count' for c_ in a[1]) \
+                    and any(c_ and all(b[0] == 'lines' for b in c_) for c_ in a[1]):
+                ci_ = 0 if (len(a[1][0]) == 1 and next(iter(a[1][0]))[0] == 'count') else 1
+                cnt = next(iter(a[1][ci_]))
+                other = a[1][1 - ci_]
+                idx = av(('idx', cnt[1], frozenset(other)))
+                elem = frozenset(('str', 'u', ('elem', b)) for b in other)
+                out = join(out, av(('seq', 'tuple', (idx, elem) if ci_ == 0 else (elem, idx))))
             elif k == 'zip':
                 parts = []
                 for x in a[1]:
@@ -2703,6 +2729,8 @@ class Interp:
                     out = join(out, av(('seq', 'tuple', tuple(parts))))
             elif k == 'range':
                 out = join(out, av(INT_S))
+            elif k == 'count':
+                out = join(out, av(INT_U))
             elif is_str_atom(a):
                 out = join(out, av(('str', str_taint(a), None)))
             elif k == 'bytes' or (k == 'c' and a[1] == 'bytes'):
@@ -3859,6 +3887,21 @@ class Interp:
         yes, no = set(), set()
         self.partition_unknown = False
         for a in val:
+            if a[0] == 'caught':
+                ky, kn = set(), set()
+                for rec in self.recs_of(a):
+                    r_ = self.atom_is_instance(rec.atom, names, exact)
+                    if r_ == 'f' and not isinstance(rec.origin, ast.Raise) and any(self.is_subclass(n_, rec.atom[1]) for n_ in names):
+                        r_ = '?'        # a library raiser / stand-in stands for any exception below its class
+                    if r_ in ('t', '?'):
+                        ky.add(rec.key())
+                    if r_ in ('f', '?'):
+                        kn.add(rec.key())
+                if ky:
+                    yes.add(('caught', a[1], frozenset(ky)))
+                if kn:
+                    no.add(('caught', a[1], frozenset(kn)))
+                continue
             r = self.atom_is_instance(a, names, exact)
             if r == 't':
                 yes.add(a)
@@ -3889,7 +3932,7 @@ class Interp:
             return 't' if any(self.is_subclass(a[1], n) for n in names) else 'f'
         if k == 'caught':
             res = set()
-            for rec in self.caught_tbl.get(a[1], []):
+            for rec in self.recs_of(a):
                 r_ = self.atom_is_instance(rec.atom, names, exact)
                 if r_ == 'f' and not isinstance(rec.origin, ast.Raise) and any(self.is_subclass(n_, rec.atom[1]) for n_ in names):
                     r_ = '?'        # a library raiser stands for any exception below its class
@@ -3947,7 +3990,14 @@ class Interp:
             name = test.args[0].id if isinstance(test.args[0], ast.Name) else None
             if self.partition_unknown:
                 self.unrefined_type_tests.add(id(test))
-            return self.split(fr, store, refine, name, yes, no)
+            ye = ne = None
+            if xv and all(a[0] == 'caught' for a in xv) and store.vars.get('$handling') and {a[1] for a in xv} == {a[1] for a in store.vars['$handling']}:
+                def ye(s_, yes=yes):
+                    s_.vars['$handling'] = yes
+
+                def ne(s_, no=no):
+                    s_.vars['$handling'] = no
+            return self.split(fr, store, refine, name, yes, no, yes_extra=ye, no_extra=ne)
         if d == 'issubclass' and len(test.args) == 2 and self.is_builtin_name(fr, 'issubclass'):
             subject, by_name = self.type_subject(test.args[0])
             if subject is not None and not by_name:
@@ -4124,6 +4174,11 @@ class Interp:
             else:
                 v = self.eval(fr, a)
                 s_ = self.sym_of(fr, a)
+                if s_ is None and isinstance(a, ast.Name) and fr.scope is not None and self.owner_frame(fr, a.id) is fr \
+                        and all(is_str_atom(b) or is_int_atom(b) or b == NONE for b in v):
+                    # the value this local holds until it is rebound: lets "f(x) returned normally" be remembered for plain values
+                    s_ = ('val', fr.fid, a.id)
+                    fr.store.syms[a.id] = s_
                 for args in alts:
                     if args.star is not None:
                         args.star = join(args.star, v)
@@ -4524,7 +4579,9 @@ class Interp:
             self.ev_discharge[id(node)] = (fr.qual, node, 'dominated', q, okfact)
         if not suppress:
             for rec in summ.excs.values():
-                fr.pending.append(rec.retag(f).via(fr.qual, node))
+                r_ = rec.retag(f).via(fr.qual, node)
+                r_.pfacts = fr.store.facts
+                fr.pending.append(r_)
         if not summ.pure and fr.summary is not None:
             fr.summary.pure = False
         if summ.facts is None:
@@ -4784,7 +4841,7 @@ class Interp:
             # an object that holds classes / callables (exception types of a context manager, a builder ...): what it does
             # depends on where it was made, so its attributes are kept per construction site
             oname = '{}@a{}:{}{}'.format(cname, getattr(node, 'lineno', 0), getattr(node, 'col_offset', 0),
-                                         ''.join('#%d' % i_ for i_ in self.unroll_index) if self.summary_depth == 0 else '')
+                                         (''.join('#%d' % i_ for i_ in self.unroll_index) + '~%d' % fr.fid) if self.summary_depth == 0 else '')
             order = self.attr_order.setdefault(oname, [])
             for attr, val, snode in stores:
                 if attr not in order:
@@ -4870,7 +4927,7 @@ class Interp:
                 return av(('seq', kind, ()))
             out = BOT
             for a in x:
-                if a[0] == 'toks' and cname == 'list':
+                if a[0] in ('toks', 'lines') and cname in ('list', 'tuple'):
                     out = join(out, av(a))
                     continue
                 mode, elems = self.iteration(fr, av(a), node)
@@ -4998,13 +5055,25 @@ class Interp:
                 out.add(INT_U)
             else:
                 out.add(INT_U)
+        xsym = args.syms.get(0)
+        base = args.kw.get('base', args.pos[1] if len(args.pos) > 1 else av(const(10)))
+        okf = None
+        if isinstance(xsym, tuple) and xsym and xsym[0] in ('val', 'fld') and len(base) == 1 and is_const(next(iter(base))):
+            okf = ('ok', 'int', (('base', next(iter(base))), ('x', xsym)))
+        if raises and okf is not None and okf in fr.store.facts:
+            # the same conversion of the same unchanged value already succeeded on every path to here
+            self.ev_discharge[id(node)] = (fr.qual, node, 'dominated', 'int', okf)
+            raises = False
         if raises:
             really = sure_tok or any((a[0] == 'str' and a[1] == 'u' and a[2] != 'maybe-size') or (a[0] == 'c' and a[1] == 'str') for a in args.pos[0])
             self.library_raise(fr, 'ValueError', node, uncertain=not really)
+        if okf is not None:
+            fr.store.facts = fr.store.facts | {okf}
         return frozenset(out)
 
     def library_raise(self, fr, exc, node, uncertain=False):
         rec = ExcRec(('obj', exc, None), node, ((fr.qual, node),), uncertain=uncertain)
+        rec.pfacts = fr.store.facts
         self.ev_origin[id(node)] = (fr.qual, node, exc)
         fr.pending.append(rec)
 
@@ -5704,6 +5773,15 @@ class Interp:
                                                (const('type'), av(TOP)), (const('default'), av(TOP))), ('dcfield',))))
                 out = join(out, av(('seq', 'tuple', tuple(descs))))
             return out
+        if name == 'itertools.count':
+            start = 0
+            sv = args.kw.get('start') or (pos[0] if pos else None)
+            if sv is not None:
+                start = self.const_int(sv)
+            step = args.kw.get('step') or (pos[1] if len(pos) > 1 else None)
+            if step is not None and self.const_int(step) != 1:
+                start = None
+            return av(('count', start))
         if name in ('itertools.chain', 'itertools.chain.from_iterable'):
             srcs = pos
             if name.endswith('from_iterable') and pos:
